@@ -64,6 +64,7 @@ func ruleC11(w *World, r *Report) {
 		"R11.4 BESS fan-out: per-call completion channel, one goroutine per rule on every path of each worker starter, one completion per goroutine on every path, the count joined is the number started. R11.5 math/rand generators are created fresh in the constructor of a per-connection object and used only from that connection's goroutine."
 	r.Explanation += " R11.7 = C15 R15.3 on the shared tunnel peer; R11.8 the channel set-up in tryConnect runs under tryConnectMu and only after 'not connected' was observed inside that critical section; R11.9 no guarded write is computed from a read made in an earlier critical section of the same mutex (check-then-act across an unlock), with new helpers and their defers expanded."
 	r.Explanation += " R11.10 = C06 R06.6 + C07 R07.7 (pools get back only after the accepted datapath delete); R11.11 no mutex re-acquired while held, all of pfcpiface; R11.12 SendPacketOut is called by the sender goroutine only."
+	r.Explanation += " R11.13 = C06 R06.7; R11.14 = C10 R10.6 (each association has a session store of its own)."
 	r.NotDecided = "linearizability of compound operations beyond R11.3; instances of a struct type are not distinguished except by the per-instance root table; start-up races between goroutines launched during initialisation and the rest of initialisation; the HTTP handlers among themselves"
 
 	la := w.Locks()
